@@ -150,6 +150,9 @@ GM = "schemathesis.generation:GenerationMode"
 GV = Obj(COV + "GeneratedValue", value=Opq("Value"), generation_mode=EnumOf(GM), description=Choice("Valid value", "Maximum value"), parameter=NoneT, location=NoneT)
 
 
+GV1 = Obj(COV + "GeneratedValue", value=Opq("Value"), generation_mode=EnumOf(GM), description=Const("Valid value"), parameter=NoneT, location=NoneT)
+
+
 class Modes(D):
     """generation_modes: [POSITIVE], [NEGATIVE] or [POSITIVE, NEGATIVE]."""
 
@@ -164,7 +167,15 @@ def _values(it, env):
     """cover_schema_iter abstracted: an arbitrary finite sequence (here up to 3) of generated values with arbitrary modes."""
     from pyvc.values import VGen
 
-    return VGen(ListOf(GV, [0, 1, 2, 3]).make(it, it.path.fresh("covered")))
+    if getattr(it.top_contract, "variant", None) == "three-optional-query-parameters":
+        # one boundary value per parameter is enough to reach the combination blocks; its mode is arbitrary among the enabled ones
+        items = ListOf(GV1, [1]).make(it, it.path.fresh("covered"))
+    else:
+        items = ListOf(GV, [0, 1, 2, 3]).make(it, it.path.fresh("covered"))
+    # ghost: which value was generated with which mode (values are tagged by origin: python identity of the symbolic value)
+    it.ghost.setdefault("generated", [])
+    it.ghost["generated"] = it.ghost["generated"] + [(g.fields["value"], g.fields["generation_mode"].fields["name"]) for g in items]
+    return VGen(items)
 
 
 R.contract(COV + "cover_schema_iter", args={"ctx": Opq("Any"), "schema": Opq("Any"), "seen": Opq("Any")}, returns=_values, trusted=True,
@@ -199,6 +210,24 @@ _op_nominal(R)
 NEG_RULE = ("all(iff(c.meta.generation.mode.name == 'NEGATIVE', any(info.mode.name == 'NEGATIVE' for info in c.meta.components.values()) or "
             "c.meta.phase.data.description.startswith('Unspecified HTTP method') or c.meta.phase.data.description.startswith('Duplicate') or "
             "c.meta.phase.data.description.startswith('Missing')) for c in result)")
+def _origin_mode(it, v):
+    for value, mode in it.ghost.get("generated", []):
+        if value is v:
+            return mode
+    return "unknown"
+
+
+def _part_values(it, case, kind):
+    name = kind.fields["name"]
+    part = case.fields.get({"QUERY": "query", "HEADERS": "headers", "COOKIES": "cookies", "PATH_PARAMETERS": "path_parameters", "BODY": "body"}[name])
+    if isinstance(part, dict):
+        return list(part.values())
+    return [part]
+
+
+R.spec_funcs.update({"origin_mode": _origin_mode, "part_values": _part_values})
+# a part labelled positive carries no value that was generated as an invalid one
+POSITIVE_PARTS = ("all(all(origin_mode(v) != 'NEGATIVE' for v in part_values(c, kind)) for c in result for kind in c.meta.components if c.meta.components[kind].mode.name == 'POSITIVE')")
 BodyOp = Obj("spec:Operation", parameters=Const(()), body=ListOf(Obj("spec:Body", definition=Const({}), media_type=Const("application/json")), [1]),
              query=Const(()), headers=Const(()), cookies=Const(()), path=Const("/x"), schema=Obj("spec:SchemaMap"))
 R.contract(
@@ -210,6 +239,7 @@ R.contract(
     ensures={
         # from the property: the case as a whole is labelled negative exactly when one of its parts is invalid (or a special negative scenario)
         "case_label_matches_parts": NEG_RULE,
+        "positive_parts_hold_no_negative_value": POSITIVE_PARTS,
     },
     max_paths=30000,
 )
@@ -221,9 +251,23 @@ R.contract(
     variant="one-query-parameter",
     prop="C03",
     args={"operation": ParamOp, "generation_modes": Modes(), "unexpected_methods": Const({"get"})},
-    ensures={"case_label_matches_parts": NEG_RULE},
+    ensures={"case_label_matches_parts": NEG_RULE, "positive_parts_hold_no_negative_value": POSITIVE_PARTS},
     # INCIDENTAL (outside C03's statement, see DESIGN.md "incidental findings"): when no value at all can be produced for the only query parameter
     # (schema {}), `template["query"]` raises KeyError in the duplicate-query block. C03 speaks about the labels of the cases that ARE produced.
+    raises=["KeyError"],
+    max_paths=60000,
+    replayable=False,
+)
+ParamN = lambda n: Obj("spec:Parameter", location=Const("query"), name=Const(n), is_required=Const(False))
+Param3Op = Obj("spec:Operation", parameters=TupleOf(ParamN("a"), ParamN("b"), ParamN("c")), body=Const(()), query=TupleOf(ParamN("a"), ParamN("b"), ParamN("c")), headers=Const(()), cookies=Const(()),
+               path=Const("/x"), schema=Obj("spec:SchemaMap"))
+R.contract(
+    BLD + "_iter_coverage_cases",
+    variant="three-optional-query-parameters",
+    prop="C03",
+    args={"operation": Param3Op, "generation_modes": Modes(), "unexpected_methods": Const({"get"})},
+    # the blocks that combine optional parameters ("All required and N optional properties") need at least 3 optional parameters in one location
+    ensures={"case_label_matches_parts": NEG_RULE, "positive_parts_hold_no_negative_value": POSITIVE_PARTS},
     raises=["KeyError"],
     max_paths=60000,
     replayable=False,
